@@ -86,6 +86,40 @@ Theorem C13_bigint_refuted : exists st count inits st' r log,
   cell_at (cur_table st) 1 0 = Some (Iv 9007199254740993) /\ cell_at (cur_table st') 1 0 = Some (Iv 9007199254740992).
 Proof. exists big_state, 1%nat, [good_int_init]. eexists. eexists. eexists. vm_compute. repeat split; reflexivity. Qed.
 
+(* ---- abandoned creations ---- *)
+(* whatever makes a creation fail (an exception escaping an initializer; the life cycle refusing the manager's own
+   update when the creation is requested from a post_setup / simulation_end listener): the rows have been added,
+   nothing is returned and BOTH FLAGS STAY SET - they are not cleared in a `finally`.  The model says so because the
+   code does; see the Example below for what that means for later updates (the F-L tolerance stays switched on). *)
+Theorem C13_abandoned_creation : forall st count user clock stp inits st' e log,
+  create st count user clock stp inits = (st', Rejected e, log) ->
+  nrows st' = (nrows st + count)%nat /\
+  pflags st' = mkflags ((match ptbl st with None => true | Some _ => false end) || creating (pflags st)) true /\
+  ptbl st' <> None.
+Proof. exact create_abandoned. Qed.
+
+(* the first initializer's first update raises uncaught (the refused creation of the correspondence is the instance
+   [refused_action]): exactly the re-indexed table is left, no other initializer is called *)
+Theorem C13_refused_creation : forall st count user clock stp a k rest,
+  let f := mkflags ((match ptbl st with None => true | Some _ => false end) || creating (pflags st)) true in
+  let t1 := reindex (cur_table st) count in
+  snd (update t1 (a_view a) f (a_ord a) (a_upd a)) <> Pass -> a_propagate a = true ->
+  create st count user clock stp ((fun _ _ => IAct a k) :: rest) =
+  (mkpstate (Some t1) f, Rejected EOther, [mksimdata (new_labels (nrows st) count) user clock stp]).
+Proof. exact create_first_raises. Qed.
+
+(* non-vacuity, and the consequence: creation of 2 refused at simulation_end on int64 [1,2,3]; the rows are there,
+   the values are kept (as float64), `adding` stays set - so a later update of BOOLS for the new rows is accepted and
+   turns simulant 1's 2 into True (finding F-L reached after a refused creation) *)
+Example ex_refused :
+  let st := mkpstate (Some (mktbl 3 [mkcol 1 DInt [Iv 1; Iv 2; Iv 3]])) steady in
+  let '(st', r, log) := create st 2 0 0 24 [fun _ _ => IAct refused_action (fun _ _ => IDone); good_int_init] in
+  r = Rejected EOther /\ log = [mksimdata [3; 4] 0 0 24] /\ pflags st' = mkflags false true /\
+  cur_table st' = mktbl 5 [mkcol 1 DFloat [Fv 2; Fv 4; Fv 6; Null; Null]] /\
+  fst (step st' (OpUpdate (mkview [1]) [1] (USeries (Some 1) DBool [3; 4] [Bv true; Bv false]))) =
+  mkpstate (Some (mktbl 5 [mkcol 1 DBool [Bv true; Bv true; Bv true; Bv true; Bv false]])) (mkflags false true).
+Proof. vm_compute. repeat split; reflexivity. Qed.
+
 (* ---- what the initializers receive ---- *)
 (* every initializer that is called is called with the same SimulantData: the new labels, the user data, the clock
    and the step size of the moment - once each, all of them unless an exception propagates *)
@@ -184,6 +218,8 @@ Print Assumptions C13_existing_untouched_update.
 Print Assumptions C13_existing_untouched.
 Print Assumptions C13_wrong_dtype_refuted.
 Print Assumptions C13_bigint_refuted.
+Print Assumptions C13_abandoned_creation.
+Print Assumptions C13_refused_creation.
 Print Assumptions C13_initializer_args.
 Print Assumptions C13_update_keeps_columns.
 Print Assumptions C13_new_column_rejected.
